@@ -42,7 +42,7 @@ ASSUMPTIONS = [
     "valid datagram",
     "content intact = same message name, blocks/values, flags, packet id and acks after decoding both sides",
 ]
-MUST_REACH = {"region_handshakes_with_viewer_object_cache_enabled": 20, "viewer_object_cache_consulted_at_region_hello": 20, "valid_out_delivered": 300, "valid_in_delivered": 300, "garbage_datagrams": 300, "templates_covered": 300,
+MUST_REACH = {"control_connection_events": 20, "deliveries_through_served_associations": 100, "delivered_with_ack_flag_and_empty_trailer": 50, "region_handshakes_with_viewer_object_cache_enabled": 20, "viewer_object_cache_consulted_at_region_hello": 20, "valid_out_delivered": 300, "valid_in_delivered": 300, "garbage_datagrams": 300, "templates_covered": 300,
               "discard_random": 20, "discard_truncated": 20, "discard_unknown_host": 10, "discard_unregistered_circuit": 10,
               "discard_banned": 5, "discard_bad_socks": 20, "discard_presession": 5, "reopened_circuits": 3, "closing_messages_checked": 3, "sessions_claimed_out_of_login_order": 2, "sequences_deferred_parsing": 5, "sequences_eager_parsing": 5,
               "same_ip_sequences": 2, "multi_region_deliveries": 50,
@@ -93,7 +93,8 @@ def decode(data):
 
 
 def same_message(a, b):
-    if a.name != b.name or int(a.send_flags) != int(b.send_flags) or a.packet_id != b.packet_id:
+    # (the flag announcing appended acks is framing for the ack list, which is compared below)
+    if a.name != b.name or int(a.send_flags) & ~0x10 != int(b.send_flags) & ~0x10 or a.packet_id != b.packet_id:
         return False
     if tuple(a.acks) != tuple(b.acks):
         return False
@@ -146,6 +147,9 @@ def make_valid(rng, templates, direction_in, packet_id, ctx=None, only=None):
         # endpoints only ack ids they saw; keep appended acks out of this property (C05 covers them)
         spec["acks"] = []
         spec["flags"] &= ~0x10
+        if rng.random() < 0.08:
+            # legal framing that ordinary traffic rarely has: the flag that announces appended acks, and a trailer that counts none
+            spec["flags"] |= 0x10
         if tmpl.name == "ChatFromViewer":
             for (bn, ents) in spec["blocks"]:
                 for e in ents or ():
@@ -379,6 +383,8 @@ def _run_sequence(ctx, rng, rig, seq_seed, same_ip, vocache=None):
             return
         if payload == data:
             ctx.count("byte_identical")
+        if data[0] & 0x10:
+            ctx.count("delivered_with_ack_flag_and_empty_trailer")
         ctx.count("valid_in_delivered" if direction_in else "valid_out_delivered")
         if vocache and name == "RegionHandshake":
             for r in sessions[circ.sess_idx].regions:
@@ -658,7 +664,159 @@ def many_destinations(ctx, rng):
         rig.close()
 
 
+def control_connections(ctx, rng):
+    """The associations are opened the way viewers open them: each over its own SOCKS5 control connection, served by the real
+    SLSOCKS5Server.handle_connection (only the sockets are stand-ins). Control connections come and go - another viewer logs out,
+    a stray client fails the greeting, a client asks for an unsupported command - and that is nobody else's business: the
+    remaining viewers' datagrams keep being delivered exactly once both ways and their sessions stay."""
+    import asyncio
+    import struct as _struct
+    from hippolyzer.lib.proxy.lludp_proxy import SLSOCKS5Server
+    from ..harness_proxy import FakeDatagramTransport
+
+    class Writer:
+        def __init__(self, peer):
+            self.peer, self.out, self.closed = peer, bytearray(), False
+
+        def get_extra_info(self, name, default=None):
+            return self.peer if name == "peername" else default
+
+        def write(self, data):
+            self.out += data
+
+        async def drain(self):
+            return None
+
+        def close(self):
+            self.closed = True
+
+        def is_closing(self):
+            return self.closed
+
+    rig = Rig(settings=ProxySettings())
+    loop = rig.loop if hasattr(rig, "loop") else asyncio.get_event_loop_policy().get_event_loop()
+    real_cde = loop.create_datagram_endpoint
+    made = []
+
+    async def fake_cde(factory, local_addr=None, **kw):
+        proto = factory()
+        tr = FakeDatagramTransport(rig.sendlog, f"served{len(made)}")
+        proto.connection_made(tr)
+        try:
+            proto.resend_task.cancel()
+        except Exception:
+            pass
+        made.append(proto)
+        return tr, proto
+    loop.create_datagram_endpoint = fake_cde
+    server = SLSOCKS5Server(rig.session_manager)
+    tasks = []
+    try:
+        n_viewers = rng.choice([2, 3])
+        viewers = []
+        for v in range(n_viewers):
+            client = (f"10.0.0.{v + 1}", 40001 + v)
+            sim = (f"10.1.0.{v + 1}", 13001)
+            sess = rig.add_session(sim, handle_xy=(1000 + 300 * v, 1000))
+            reader, writer = asyncio.StreamReader(), Writer(client)
+            reader.feed_data(b"\x05\x01\x00" + b"\x05\x03\x00\x01" + bytes(4) + _struct.pack("!H", 0))
+            tasks.append(loop.create_task(server.handle_connection(reader, writer)))
+            for _ in range(6):
+                rig.run_loop_once()
+            if len(made) != v + 1:
+                ctx.inconclusive_because("the SOCKS5 server did not open a UDP association for a well-formed request")
+                return
+            viewers.append({"client": client, "sim": sim, "sess": sess, "reader": reader, "writer": writer, "proto": made[-1],
+                            "out_id": 2, "in_id": 1, "alive": True})
+            exc = None
+            try:
+                made[-1].datagram_received(socks_wrap(sim, use_circuit_code(sess, 1)), client)
+            except Exception as e:
+                exc = e
+            if exc is not None:
+                ctx.violation("use-circuit-code-not-forwarded", "UseCircuitCode through a served association raised", {"exc": repr(exc)[:200]})
+                return
+        history = []
+
+        def traffic(tag):
+            from hippolyzer.lib.base.message.message import Message, Block
+            from hippolyzer.lib.base.message.udpserializer import UDPMessageSerializer
+            for vi, v in enumerate(viewers):
+                if not v["alive"]:
+                    continue
+                for direction_in in (False, True):
+                    if direction_in:
+                        m = Message("AlertMessage", Block("AlertData", Message=f"{tag} {vi}"), packet_id=v["in_id"], flags=0)
+                        v["in_id"] += 1
+                    else:
+                        m = Message("AgentPause", Block("AgentData", AgentID=v["sess"].agent_id, SessionID=v["sess"].id, SerialNum=v["out_id"]),
+                                    packet_id=v["out_id"], flags=0)
+                        v["out_id"] += 1
+                    data = bytes(UDPMessageSerializer().serialize(m))
+                    before = len(rig.sendlog)
+                    exc = None
+                    try:
+                        if direction_in:
+                            v["proto"].datagram_received(data, v["sim"])
+                        else:
+                            v["proto"].datagram_received(socks_wrap(v["sim"], data), v["client"])
+                    except Exception as e:
+                        exc = e
+                    new = rig.sendlog[before:]
+                    ctx.ev()
+                    want_addr = v["client"] if direction_in else v["sim"]
+                    if exc is not None or len(new) != 1 or new[0][2] != want_addr:
+                        ctx.violation(("in:" if direction_in else "out:") + "not-forwarded:after-control-connection-event",
+                                      "a viewer's traffic on its open circuit was not delivered exactly once after something happened on "
+                                      "ANOTHER client's control connection", {"history": list(history), "viewer": vi, "exc": repr(exc)[:200],
+                                                                             "sends": [(n, ad) for n, _, ad in new]})
+                        return False
+                    ctx.count("deliveries_through_served_associations")
+                if v["sess"] not in rig.session_manager.sessions:
+                    ctx.violation("session-gone:after-control-connection-event", "a viewer's session disappeared after something "
+                                  "happened on another client's control connection", {"history": list(history), "viewer": vi})
+                    return False
+            return True
+        if not traffic("start"):
+            return
+        for step in range(rng.randint(2, 5)):
+            ev = rng.choice(["stray-bad-version", "stray-no-methods", "stray-auth-only", "stray-tcp-connect", "viewer-logs-out",
+                             "stray-bad-command-version"])
+            if ev == "viewer-logs-out":
+                alive = [v for v in viewers if v["alive"]]
+                if len(alive) < 2:
+                    continue
+                v = rng.choice(alive)
+                v["reader"].feed_eof()
+                v["alive"] = False
+            else:
+                reader, writer = asyncio.StreamReader(), Writer(("10.0.9.9", 50000 + step))
+                reader.feed_data({"stray-bad-version": b"\x04\x01\x00", "stray-no-methods": b"\x05\x00",
+                                  "stray-auth-only": b"\x05\x01\x02", "stray-tcp-connect": b"\x05\x01\x00\x05\x01\x00\x01" + bytes(6),
+                                  "stray-bad-command-version": b"\x05\x01\x00\x04\x03\x00\x01" + bytes(6)}[ev])
+                tasks.append(loop.create_task(server.handle_connection(reader, writer)))
+            history.append(ev)
+            for _ in range(8):
+                rig.run_loop_once()
+            ctx.count("control_connection_events")
+            ctx.cover("control_connection_event_kinds", ev)
+            if not traffic(f"after {ev}"):
+                return
+        ctx.nontrivial(("control", tuple(history)))
+    finally:
+        loop.create_datagram_endpoint = real_cde
+        for t in tasks:
+            t.cancel()
+        try:
+            rig.run_loop_once()
+        except Exception:
+            pass
+        rig.close()
+
+
 def run(ctx):
+    for _ in range(ctx.pick(3, 40)):
+        control_connections(ctx, ctx.rng)
     if ctx.shard == 1 % max(ctx.nshards, 1):
         many_destinations(ctx, ctx.rng)
     n = ctx.pick(10, 600)
